@@ -120,7 +120,9 @@ initialX, minX, maxX, tolerance, convergenceLimit float64, maxIterations int) (x
 			// minDelta = minTrialDelta
 		}
 
-		if hitConvergenceLimit == len(trialXs) {
+		// All trial points within convergenceLimit of x only means convergence
+		// when the bracket itself has collapsed (x may be an interior initial guess).
+		if hitConvergenceLimit == len(trialXs) && (maxX-minX) <= 2*convergenceLimit {
 			return
 		}
 	}
